@@ -234,3 +234,51 @@ func VH_C07_import_generation() {
 	vQuiescent(c, "C07.generation.release")
 	vAssert(t.sends == 1 && len(t.releaseCounts) == 1 && t.releaseCounts[0] == uint32(n+1), "C07.generation.release-reports-every-received-reference")
 }
+
+// embargo: when a Return resolves pipelined-on paths to capabilities hosted by this vat, each such
+// capability gets a Disembargo (sender loopback) so that calls made before and after the
+// resolution stay ordered - for every called path, whatever the earlier paths resolved to.
+func VH_C06_embargo_per_called_path() {
+	t := &vTransport{}
+	c := vNewConn(t, nil)
+	hook := &vRecvHook{}
+	c.exports = []*expent{{client: capnp.NewClient(hook), wireRefs: 1}}
+	c.exportID.i = 1
+	c.mu.Lock()
+	q := c.newQuestion(capnp.Method{})
+	c.mu.Unlock()
+	q.called = [][]capnp.PipelineOp{{{Field: 0}}, {{Field: 1}}}
+	m := vRecvMsg()
+	ret, err := m.NewReturn()
+	vAssume(err == nil)
+	ret.SetAnswerId(uint32(q.id))
+	pl, err := ret.NewResults()
+	vAssume(err == nil)
+	res, err := capnp.NewStruct(pl.Segment(), capnp.ObjectSize{PointerCount: 2})
+	vAssume(err == nil && pl.SetContent(res.ToPtr()) == nil)
+	// field 1 is the capability in descriptor 0: export 0 of this vat coming back (receiverHosted)
+	vAssume(res.SetPtr(1, capnp.NewInterface(pl.Segment(), 0).ToPtr()) == nil)
+	ct, err := pl.NewCapTable(1)
+	vAssume(err == nil)
+	ct.At(0).SetReceiverHosted(0)
+	// field 0: null, a plain struct (not a capability), or the same capability
+	first := vConcI(int(vNondetU8()), 3)
+	switch first {
+	case 1:
+		s, err := capnp.NewStruct(pl.Segment(), capnp.ObjectSize{DataSize: 8})
+		vAssume(err == nil && res.SetPtr(0, s.ToPtr()) == nil)
+	case 2:
+		vAssume(res.SetPtr(0, capnp.NewInterface(pl.Segment(), 0).ToPtr()) == nil)
+	}
+	herr := c.handleReturn(c.bgctx, ret, func() {})
+	vReach("returned")
+	vAssert(herr == nil, "C06.embargo.return-accepted")
+	vQuiescent(c, "C06.embargo")
+	nd := 0
+	for _, w := range t.lastWhich {
+		if w == rpccp.Message_Which_disembargo {
+			nd++
+		}
+	}
+	vAssert(nd == 1, "C06.embargo.one-disembargo-for-the-local-capability-whatever-earlier-paths-hold")
+}
